@@ -1724,6 +1724,18 @@ def setitem_array(out_name, array, indices, value):
         indices, array_shape
     )
 
+    # ``reverse`` holds positions of array dimensions; below it addresses
+    # dimensions of ``implied_shape`` / the assignment value, to which
+    # dimensions with an integer index do not contribute.
+    n_int_before = 0
+    implied_position = {}
+    for dim, index in enumerate(indices):
+        if isinstance(index, int):
+            n_int_before += 1
+        else:
+            implied_position[dim] = dim - n_int_before
+    reverse = [implied_position[i] for i in reverse]
+
     # Empty slices can only be assigned size 1 values
     if 0 in implied_shape and value_shape and max(value_shape) > 1:
         raise ValueError(
